@@ -184,6 +184,8 @@ class Env:
             u = str(u)
         if "action_type" in msg:
             ty = msg["action_type"]
+            if ty == "":
+                ty = "E"
             st = msg.get("action_status", "")
             k = "start" if st == "started" else ("end" if st in ("succeeded", "failed") else "?")
             if "message_type" in msg or k == "?":
@@ -449,12 +451,16 @@ class Runner:
             if name == "StartAction":
                 if op["ty"] == "T":
                     a = env.T(x=VAL["x"])
+                elif op["ty"] == "E":
+                    a = start_action(sa=VAL["sa"])                      # the default action type: ""
                 else:
                     a = start_action(action_type=op["ty"], sa=VAL["sa"], **env.collide())
                 env.acts.append(a)
             elif name == "StartTask":
                 if op["ty"] == "T":
                     a = env.T.as_task(x=VAL["x"])
+                elif op["ty"] == "E":
+                    a = start_task(sa=VAL["sa"])
                 else:
                     a = start_task(action_type=op["ty"], sa=VAL["sa"])
                 env.acts.append(a)
@@ -590,7 +596,7 @@ def forest_of(env):
     def proj(node):
         from eliot.parse import WrittenAction
         if isinstance(node, WrittenAction):
-            return ["act", node.action_type if node.action_type is not None else "?",
+            return ["act", ("E" if node.action_type == "" else node.action_type) if node.action_type is not None else "?",
                     node.status or "?", [proj(ch) for ch in node.children]]
         return ["msg", node.contents.get("message_type", "?"), "", []]
 
